@@ -2,13 +2,13 @@ package checks
 
 import (
 	"bytes"
+	"encoding/json"
 	"errors"
 	"fmt"
 	"os"
 	"os/exec"
 	"path/filepath"
 	"runtime"
-	"sort"
 	"strings"
 	"syscall"
 	"testing"
@@ -22,6 +22,7 @@ import (
 	"github.com/bartventer/httpcache/store/driver"
 	"github.com/bartventer/httpcache/store/fscache"
 	shimos "github.com/bartventer/httpcache/zzverif/shimos"
+	shimsync "github.com/bartventer/httpcache/zzverif/shimsync"
 )
 
 // C15 — store writes are atomic under concurrency, failed writes and crashes.
@@ -67,11 +68,7 @@ func c15Progs() []c15Prog {
 }
 
 func runC15(x *mc.X) {
-	mode := mc.Pick(x, "mode", []string{"interleave", "cut", "transport-cut", "cut-conformance"})
-	if mode == "cut-conformance" {
-		runC15Conformance(x)
-		return
-	}
+	mode := mc.Pick(x, "mode", []string{"interleave", "cut", "transport-cut"})
 	if mode == "cut" {
 		runC15Cut(x)
 		return
@@ -123,7 +120,8 @@ func runC15(x *mc.X) {
 		s.Point(ev.Op + " " + filepath.Base(ev.Path))
 		return shimos.Action{}
 	}
-	defer func() { shimos.Hook = nil }()
+	shimsync.Hook = func(op string) { s.Point(op) }
+	defer func() { shimos.Hook = nil; shimsync.Hook = nil }()
 	type rec struct {
 		thread int
 		op     c15Op
@@ -153,6 +151,7 @@ func runC15(x *mc.X) {
 	}
 	s.Run()
 	shimos.Hook = nil
+	shimsync.Hook = nil
 	x.Transitions(s.Steps())
 	for _, l := range s.Trace {
 		x.Logf("%s", l)
@@ -351,21 +350,33 @@ func runC15Cut(x *mc.X) {
 	case "EIO":
 		inj = syscall.EIO
 	}
-	s := sched.New(x, 0)
-	shimos.Hook = func(ev *shimos.Event) shimos.Action {
-		i := n
-		n++
-		if i != oi {
-			return shimos.Action{}
+	var setErr error
+	if how == "die" {
+		// process death is REAL: a child process (this test binary) performs the Set over the same directory and
+		// SIGKILLs itself at the cut point — no deferred call runs, no lock survives, descriptors are closed by
+		// the kernel. Everything below inspects the directory from this (other) process.
+		if msg := c15Child(c15ChildSpec{Mode: "set", Dir: dir, VLen: vlen, Enc: enc, At: oi, Short: short}); msg != "" {
+			x.Failf("harness: the child process did not die at the cut point", "%s", msg)
+			return
 		}
-		if how == "die" {
-			s.MarkDying()
-			return shimos.Action{Die: true, Short: short}
+		n = oi + 1
+		conn, err = fscache.Open("app", opts...) // a fresh instance; nothing is shared with the dead process
+		if err != nil {
+			x.Failf("open fails after a killed Set", "%v", err)
+			return
 		}
-		return shimos.Action{Err: inj, Short: short}
+	} else {
+		shimos.Hook = func(ev *shimos.Event) shimos.Action {
+			i := n
+			n++
+			if i != oi {
+				return shimos.Action{}
+			}
+			return shimos.Action{Err: inj, Short: short}
+		}
+		setErr = conn.Set(c15K, val)
+		shimos.Hook = nil
 	}
-	setErr := conn.Set(c15K, val)
-	shimos.Hook = nil
 	x.Transitions(n)
 	x.Logf("Set cut at operation %d (%s) after %d bytes, %s -> Set returned %v", oi, ops[oi].Op, short, how, setErr)
 
@@ -417,6 +428,20 @@ func runC15Cut(x *mc.X) {
 			}
 		}
 	}
+	// life goes on after the interrupted write: a later, complete Set of a shorter value (same key, and a
+	// sibling key in the same directory) must read back exactly
+	short2 := []byte("s")
+	for _, k := range []string{c15K, c15K + "-sibling"} {
+		if err := re.Set(k, short2); err != nil {
+			x.Failf("Set fails after an earlier Set was cut ("+how+" at "+ops[oi].Op+")", "%v", err)
+			return
+		}
+		if got3, err3 := re.Get(k); err3 != nil || !bytes.Equal(got3, short2) {
+			x.Failf(fmt.Sprintf("a complete Set after a cut Set does not read back (%s at %s, value %d B)", how, ops[oi].Op, vlen),
+				"after a Set of %d bytes was cut at %s after %d bytes, Set(%s, 1 byte) followed by Get returned %d bytes %q, err %v", vlen, ops[oi].Op, short, keyName(k), len(got3), clipB(got3), err3)
+			return
+		}
+	}
 	cls := fmt.Sprintf("cut/%s/%s/len=%d/prev=%v/enc=%v", how, ops[oi].Op, vlen, prev, enc)
 	x.Nontrivial(cls)
 	x.State(cls, fmt.Sprint(short), fmt.Sprint(err2 == nil), fmt.Sprint(len(got2)))
@@ -447,24 +472,9 @@ func runC15TransportCut(x *mc.X) {
 	if enc {
 		dsn += "&encrypt=on&encrypt_key=" + c14EncKey
 	}
-	bodyOld := []byte("tok1|" + strings.Repeat("old-", 100))
-	bodyNew := []byte("tok2|" + strings.Repeat("NEW+", 300))
+	bodyOld, bodyNew := c15BodyOld, c15BodyNew
 	run := func(hook func(ev *shimos.Event) shimos.Action) (ops []shimos.Event, w *world.W) {
-		shimos.Hook = nil
-		w = world.New(world.Opt{DSN: dsn})
-		answer(w, RS{Status: 200, H: H("Cache-Control", "max-age=1000"), Body: bodyOld})
-		get(w, U)
-		world.Advance(secs(5))
-		answer(w, RS{Status: 200, H: H("Cache-Control", "max-age=1000"), Body: bodyNew})
-		shimos.Hook = func(ev *shimos.Event) shimos.Action {
-			ops = append(ops, *ev)
-			if hook != nil {
-				return hook(ev)
-			}
-			return shimos.Action{}
-		}
-		o := get(w, U, "Cache-Control", "no-cache")
-		shimos.Hook = nil
+		ops, w, o := c15TransportScenario(dsn, hook, false)
 		logObs(x, "GET no-cache (origin: 200 new body), backend writes cut", o)
 		return ops, w
 	}
@@ -496,19 +506,25 @@ func runC15TransportCut(x *mc.X) {
 		short = mc.Pick(x, "bytes-written-before-the-cut", ks)
 	}
 	n := 0
-	s := sched.New(x, 0)
-	_, w := run(func(ev *shimos.Event) shimos.Action {
-		i := n
-		n++
-		if i != oi {
-			return shimos.Action{}
+	var w *world.W
+	if how == "die" {
+		// the whole scenario runs in a real child process that SIGKILLs itself at the cut point
+		if msg := c15Child(c15ChildSpec{Mode: "transport", DSN: dsn, At: oi, Short: short}); msg != "" {
+			x.Failf("harness: the child process did not die at the cut point", "%s", msg)
+			return
 		}
-		if how == "die" {
-			s.MarkDying()
-			return shimos.Action{Die: true, Short: short}
-		}
-		return shimos.Action{Err: syscall.ENOSPC, Short: short}
-	})
+		n = oi + 1
+		w = world.New(world.Opt{DSN: dsn})
+	} else {
+		_, w = run(func(ev *shimos.Event) shimos.Action {
+			i := n
+			n++
+			if i != oi {
+				return shimos.Action{}
+			}
+			return shimos.Action{Err: syscall.ENOSPC, Short: short}
+		})
+	}
 	x.Transitions(n)
 	// a fresh transport over the same directory (as after a restart)
 	w2 := world.NewWithOrigin(world.Opt{DSN: dsn}, w.Origin)
@@ -528,155 +544,95 @@ func runC15TransportCut(x *mc.X) {
 	}
 }
 
-// ---- conformance of the in-process cut model with real process death
-//
-// The same lone Set is cut at the same file-system operation (and byte count) twice: in-process (the writing
-// goroutine is ended with Goexit) and in a real child process that SIGKILLs itself at that point. The two
-// directories must be identical (names of temporary files canonicalised), i.e. the simulated death leaves
-// exactly what the kernel leaves behind.
+// ---- real process death: the cut is performed by a child process that SIGKILLs itself
 
-// c15TreeDump lists the files under dir as (name, size, content hash). entries holds the relative paths at
-// which a complete Set leaves values (learned from a dry run); every other file is a temporary of whatever
-// naming scheme the backend uses and is listed without its (random) name.
-func c15TreeDump(dir string, entries map[string]bool) string {
-	files := c17Files(dir)
-	var lines []string
-	for p, b := range files {
-		rel, _ := filepath.Rel(dir, p)
-		if !entries[rel] {
-			rel = "<temporary>"
-		}
-		lines = append(lines, fmt.Sprintf("%s %d %x", rel, len(b), hashBytes(b)))
-	}
-	sort.Strings(lines)
-	return strings.Join(lines, "\n") + "\n"
-}
+var (
+	c15BodyOld = []byte("tok1|" + strings.Repeat("old-", 100))
+	c15BodyNew = []byte("tok2|" + strings.Repeat("NEW+", 300))
+)
 
-// c15CutSet performs Set(c15K, val) on dir, cut at operation index oi after short bytes; die is called at the cut.
-func c15CutSet(dir string, val []byte, oi, short int, markDying func()) {
-	conn, err := fscache.Open("app", fscache.WithBaseDir(dir))
-	if err != nil {
-		panic(err)
+// c15TransportScenario: a response is stored through the transport, then replaced (request no-cache, origin
+// answers 200 with another body) while hook sees every file-system operation of that second exchange.
+func c15TransportScenario(dsn string, hook func(ev *shimos.Event) shimos.Action, noWait bool) (ops []shimos.Event, w *world.W, o *world.Obs) {
+	shimos.Hook = nil
+	w = world.New(world.Opt{DSN: dsn})
+	w.NoWait = noWait
+	answer(w, RS{Status: 200, H: H("Cache-Control", "max-age=1000"), Body: c15BodyOld})
+	get(w, U)
+	if !noWait {
+		world.Advance(secs(5))
 	}
-	n := 0
+	answer(w, RS{Status: 200, H: H("Cache-Control", "max-age=1000"), Body: c15BodyNew})
 	shimos.Hook = func(ev *shimos.Event) shimos.Action {
-		i := n
-		n++
-		if i != oi {
-			return shimos.Action{}
+		ops = append(ops, *ev)
+		if hook != nil {
+			return hook(ev)
 		}
-		if markDying != nil {
-			markDying()
-		}
-		return shimos.Action{Die: true, Short: short}
+		return shimos.Action{}
 	}
-	_ = conn.Set(c15K, val)
+	o = get(w, U, "Cache-Control", "no-cache")
 	shimos.Hook = nil
+	return ops, w, o
 }
 
-func runC15Conformance(x *mc.X) {
-	vlen := mc.Pick(x, "value-len", []int{1, 40, 4097})
-	prev := x.Choose("previous-value", 2) == 1
-	val := bytes.Repeat([]byte("N"), vlen)
-	old := bytes.Repeat([]byte("o"), 50)
-	mk := func() string {
-		d, err := os.MkdirTemp(os.Getenv("VERIF_SCRATCH"), "c15c-")
-		if err != nil {
-			panic(err)
-		}
-		if prev {
-			shimos.Hook = nil
-			c, _ := fscache.Open("app", fscache.WithBaseDir(d))
-			_ = c.Set(c15K, old)
-		}
-		return d
-	}
-	// learn the operations of one Set
-	var evs []shimos.Event
-	dry := mk()
-	shimos.Hook = func(ev *shimos.Event) shimos.Action { evs = append(evs, *ev); return shimos.Action{} }
-	dc, _ := fscache.Open("app", fscache.WithBaseDir(dry))
-	evs = nil
-	_ = dc.Set(c15K, val)
-	shimos.Hook = nil
-	entries := map[string]bool{}
-	for p := range c17Files(dry) {
-		rel, _ := filepath.Rel(dry, p)
-		entries[rel] = true
-	}
-	os.RemoveAll(dry)
-	if len(evs) == 0 {
-		x.Failf("harness: no file-system operation observed during Set", "")
-		return
-	}
-	oi := x.Choose("at-operation", len(evs))
-	x.Trace[len(x.Trace)-1].Desc = evs[oi].Op
-	short := 0
-	if evs[oi].Op == "File.Write" && evs[oi].N > 0 {
-		ks := []int{0, 1, evs[oi].N / 2, evs[oi].N - 1, evs[oi].N}
-		if evs[oi].N <= 64 || x.Tier() == "thorough" {
-			ks = nil
-			for k := 0; k <= evs[oi].N; k += max(1, evs[oi].N/64) {
-				ks = append(ks, k)
-			}
-		}
-		seen := map[int]bool{}
-		var uniq []int
-		for _, k := range ks {
-			if k >= 0 && k <= evs[oi].N && !seen[k] {
-				seen[k] = true
-				uniq = append(uniq, k)
-			}
-		}
-		short = mc.Pick(x, "bytes-written-before-the-cut", uniq)
-	}
-	// in-process
-	a := mk()
-	defer os.RemoveAll(a)
-	s := sched.New(x, 0)
-	c15CutSet(a, val, oi, short, s.MarkDying)
-	// real child process
-	b := mk()
-	defer os.RemoveAll(b)
+type c15ChildSpec struct {
+	Mode  string `json:"mode"` // set | transport
+	Dir   string `json:"dir"`
+	DSN   string `json:"dsn"`
+	VLen  int    `json:"vlen"`
+	Enc   bool   `json:"enc"`
+	At    int    `json:"at"`    // index of the file-system operation at which the process dies
+	Short int    `json:"short"` // bytes written by that operation before the death
+}
+
+// c15Child runs the spec in a child process and returns "" if the child was killed by SIGKILL as planned.
+func c15Child(spec c15ChildSpec) string {
+	b, _ := json.Marshal(spec)
 	cmd := exec.Command(os.Args[0], "-test.run", "^TestC15Child$", "-test.count", "1")
-	cmd.Env = append(os.Environ(), fmt.Sprintf("VERIF_C15_CHILD=%s|%d|%d|%d", b, vlen, oi, short))
+	cmd.Env = append(os.Environ(), "VERIF_C15_CHILD="+string(b))
 	out, err := cmd.CombinedOutput()
-	killed := false
 	if ee, ok := err.(*exec.ExitError); ok {
 		if ws, ok := ee.Sys().(syscall.WaitStatus); ok && ws.Signaled() && ws.Signal() == syscall.SIGKILL {
-			killed = true
+			return ""
 		}
 	}
-	if !killed {
-		x.Failf("harness: the child process did not die at the cut point", "err=%v output=%s", err, clipStr(string(out), 500))
-		return
-	}
-	da, db := c15TreeDump(a, entries), c15TreeDump(b, entries)
-	x.Transitions(2 * (oi + 1))
-	cls := fmt.Sprintf("conformance/%s/len=%d/prev=%v", evs[oi].Op, vlen, prev)
-	x.Nontrivial(cls)
-	x.State(cls, fmt.Sprint(short), da)
-	x.Note("simulated death == real SIGKILL: " + fmt.Sprint(da == db))
-	x.Sample(map[string]any{"cut_at": evs[oi].Op, "bytes_written": short, "value_len": vlen, "previous_value": prev, "directory_after_simulated_death": da, "directory_after_real_SIGKILL": db})
-	if da != db {
-		x.Failf("harness: simulated death differs from a real SIGKILL", "cut at %s after %d bytes:\n in-process:\n%s child process:\n%s", evs[oi].Op, short, da, db)
-	}
+	return fmt.Sprintf("err=%v output=%s", err, clipStr(string(out), 600))
 }
 
-// TestC15Child is the body of the child process: it performs the Set and kills itself at the cut point.
+// TestC15Child is the body of the child process: it performs the operation and kills itself at the cut point.
 func TestC15Child(t *testing.T) {
-	spec := os.Getenv("VERIF_C15_CHILD")
-	if spec == "" {
+	raw := os.Getenv("VERIF_C15_CHILD")
+	if raw == "" {
 		t.Skip("not a child")
 	}
-	var dir string
-	var vlen, oi, short int
-	parts := strings.Split(spec, "|")
-	dir = parts[0]
-	fmt.Sscan(parts[1], &vlen)
-	fmt.Sscan(parts[2], &oi)
-	fmt.Sscan(parts[3], &short)
+	var spec c15ChildSpec
+	if err := json.Unmarshal([]byte(raw), &spec); err != nil {
+		t.Fatal(err)
+	}
 	shimos.DieFunc = func() { _ = syscall.Kill(os.Getpid(), syscall.SIGKILL); select {} }
-	c15CutSet(dir, bytes.Repeat([]byte("N"), vlen), oi, short, nil)
+	n := 0
+	hook := func(ev *shimos.Event) shimos.Action {
+		i := n
+		n++
+		if i != spec.At {
+			return shimos.Action{}
+		}
+		return shimos.Action{Die: true, Short: spec.Short}
+	}
+	switch spec.Mode {
+	case "set":
+		opts := []fscache.Option{fscache.WithBaseDir(spec.Dir)}
+		if spec.Enc {
+			opts = append(opts, fscache.WithEncryption(c14EncKey))
+		}
+		conn, err := fscache.Open("app", opts...)
+		if err != nil {
+			t.Fatal(err)
+		}
+		shimos.Hook = hook
+		_ = conn.Set(c15K, bytes.Repeat([]byte("N"), spec.VLen))
+	case "transport":
+		c15TransportScenario(spec.DSN, hook, true)
+	}
 	t.Fatal("the child survived the cut point")
 }
